@@ -313,6 +313,8 @@ type Config struct {
 	DenyPeerIPs []string
 	// DenyPerClient refuses peer IPs for specific client addresses ("ip:port" -> peer IPs).
 	DenyPerClient map[string][]string
+	// EmptyUserID makes the auth handler return "" as the user id of every user.
+	EmptyUserID bool
 	// QuotaDenyUsers are refused by the quota handler.
 	QuotaDenyUsers []string
 	// QuotaPerUser limits the number of live allocations of a user (quota handler fed by events).
@@ -350,6 +352,8 @@ type World struct {
 	serverSocks map[*simnet.UDPConn]bool
 	// EventDelay[kind] is slept inside that lifecycle callback (virtual time yield point).
 	EventDelay map[string]time.Duration
+	lateDeny map[string]bool
+	newPass  map[string]string // passwords the operator has changed since start ("" = account removed)
 	// EventYield: kinds whose slow callback yields instead of sleeping (SetEventYield).
 	EventYield map[string]bool
 	// OnEvent is called inside each lifecycle callback after recording.
@@ -423,6 +427,28 @@ func (w *World) SetOnEventStart(f func(ev LifeEvent)) {
 	w.mu.Unlock()
 }
 
+// SetPassword changes what the operator's auth handler answers for a user from now on ("" removes
+// the account).
+func (w *World) SetPassword(user, pass string) {
+	w.mu.Lock()
+	if w.newPass == nil {
+		w.newPass = map[string]string{}
+	}
+	w.newPass[user] = pass
+	w.mu.Unlock()
+}
+
+// SetLateDeny makes the operator's permission handler refuse (or admit again) a peer host from
+// now on; what was granted before stays as it is until it expires.
+func (w *World) SetLateDeny(ip net.IP, denied bool) {
+	w.mu.Lock()
+	if w.lateDeny == nil {
+		w.lateDeny = map[string]bool{}
+	}
+	w.lateDeny[ip.String()] = denied
+	w.mu.Unlock()
+}
+
 // SetEventYield makes the slow callback of a kind yield the processor instead of sleeping (for
 // callbacks that a scenario reaches with a library mutex held, see event()).
 func (w *World) SetEventYield(kind string, on bool) {
@@ -492,6 +518,12 @@ func NewWorld(cfg Config, rec *Rec, rng *rand.Rand, bubble bool) (*World, error)
 		if deny[peerIP.String()] {
 			return false
 		}
+		w.mu.Lock()
+		late := w.lateDeny[peerIP.String()]
+		w.mu.Unlock()
+		if late {
+			return false
+		}
 		for _, ip := range cfg.DenyPerClient[clientAddr.String()] {
 			if net.ParseIP(ip).Equal(peerIP) {
 				return false
@@ -515,9 +547,19 @@ func NewWorld(cfg Config, rec *Rec, rng *rand.Rand, bubble bool) (*World, error)
 			if w.AuthHook != nil {
 				w.AuthHook()
 			}
+			w.mu.Lock()
 			pw, ok := cfg.Users[ra.Username]
+			if np, changed := w.newPass[ra.Username]; changed {
+				pw, ok = np, np != ""
+			}
+			w.mu.Unlock()
 			if !ok {
 				return "", nil, false
+			}
+
+			if cfg.EmptyUserID {
+				// an operator whose handler does not hand out user ids: every allocation is owned by ""
+				return "", turn.GenerateAuthKey(ra.Username, ra.Realm, pw), true
 			}
 
 			return ra.Username, turn.GenerateAuthKey(ra.Username, ra.Realm, pw), true
